@@ -4,6 +4,7 @@ import (
 	"context"
 	"encoding/binary"
 	"fmt"
+	"math"
 	"strconv"
 
 	"github.com/jackc/pgx/v5/pgtype"
@@ -75,6 +76,10 @@ func (t *Int4DataTypeEncoder) Decode(ctx context.Context, data []byte, format ty
 			copy(newData[:], data)
 		}
 		value := binary.BigEndian.Uint64(newData[:])
+		if int64(value) > math.MaxInt32 || int64(value) < math.MinInt32 {
+			// 8 bytes that are no 32-bit integer: Encode could not put the text back into an int4
+			return ctx, data, nil
+		}
 		return ctx, []byte(strconv.FormatInt(int64(value), 10)), nil
 	}
 
